@@ -541,9 +541,11 @@ func TestVerifC37(t *testing.T) {
 	case r.Replaying():
 		fams = []fam{{"pre3q", 3, 4, true}, {"pre1q", 1, 3, true}, {"pre3", 3, 6, false}, {"pre1", 1, 5, false}, {"fresh", -1, 7, false}}
 	case r.Thorough():
-		fams = []fam{{"pre3", 3, 6, false}, {"pre1", 1, 5, false}, {"fresh", -1, 7, false}}
+		// cheapest family first: if the wall-clock budget expires on a loaded machine, only the
+		// most expensive family (pre3: a 0.1-0.3 s drain per unstall) is cut short
+		fams = []fam{{"fresh", -1, 7, false}, {"pre1", 1, 5, false}, {"pre3", 3, 6, false}}
 	default:
-		fams = []fam{{"pre3q", 3, 4, true}, {"pre1q", 1, 3, true}, {"fresh", -1, 5, false}}
+		fams = []fam{{"fresh", -1, 5, false}, {"pre1q", 1, 3, true}, {"pre3q", 3, 4, true}}
 	}
 	for _, f := range fams {
 		complete := true
